@@ -153,6 +153,18 @@ fn emit_opt<R: Recorder + ?Sized>(r: &R, op: u8, which: bool, usel: u8, v: u64, 
     }
 }
 
+/// Describe operations only (op in 1..=3), for calls through an unresolved `&dyn Recorder`: CBMC explores every
+/// syntactic arm, so the register arms of `emit` must not even be present behind such a reference.
+fn emit_describe(r: &dyn Recorder, op: u8, which: bool, usel: u8) {
+    let name = if which { NAME_A } else { NAME_B };
+    let desc = if which { DESC_A } else { DESC_B };
+    match op {
+        1 => r.describe_counter(KeyName::from_const_str(name), unit_of(usel), SharedString::const_str(desc)),
+        2 => r.describe_gauge(KeyName::from_const_str(name), unit_of(usel), SharedString::const_str(desc)),
+        _ => r.describe_histogram(KeyName::from_const_str(name), unit_of(usel), SharedString::const_str(desc)),
+    }
+}
+
 /// The call that entered the recorder last is exactly `op` with the arguments `emit` passed.
 fn assert_last_call_is(op: u8, which: bool, usel: u8, v: u64) {
     assert_last_call_is_opt(op, which, usel, v, true)
@@ -336,7 +348,7 @@ pub fn c20_install_ok_body(op1: u8, op2: u8, which: bool, usel: u8) {
         }
     };
     assert!(Arc::strong_count(&handle.handle) == 1 && Arc::weak_count(&handle.handle) == 1);
-    metrics::with_recorder(|r| emit(r, op1, which, usel, 0));
+    metrics::with_recorder(|r| emit_describe(r, op1, which, usel));
     assert!(CALLS.load(O::SeqCst) == 1);
     assert_last_call_is(op1, which, usel, 0);
     // one registration through the global recorder (handle leaked unused, see above)
@@ -347,12 +359,12 @@ pub fn c20_install_ok_body(op1: u8, op2: u8, which: bool, usel: u8) {
     assert!(Arc::strong_count(&handle.handle) == 1);
     let rec = handle.into_inner();
     assert!(rec.id == 11 && DROPS.load(O::SeqCst) == 0);
-    metrics::with_recorder(|r| emit(r, op2, which, usel, 0));
+    metrics::with_recorder(|r| emit_describe(r, op2, which, usel));
     core::mem::forget(metrics::with_recorder(|r| r.register_counter(&KEY, &META)));
     assert!(CALLS.load(O::SeqCst) == 2 && UPDATES.load(O::SeqCst) == 0);
     drop(rec);
     assert!(DROPS.load(O::SeqCst) == 1 && LATE_CALLS.load(O::SeqCst) == 0);
-    metrics::with_recorder(|r| emit(r, op1, which, usel, 0));
+    metrics::with_recorder(|r| emit_describe(r, op1, which, usel));
     assert!(CALLS.load(O::SeqCst) == 2 && LATE_CALLS.load(O::SeqCst) == 0);
     kani::cover!(op1 == 3 && op2 == 1);
     kani::cover!(op1 == 2 && op2 == 2);
